@@ -9,6 +9,12 @@
 (*   ReadKinds, GetterKinds   a schedule read is the step function of its   *)
 (*        events: monotone, zero up to the start, total from the end on,    *)
 (*        vested+unvested = locked+unlocked = original, nothing negative    *)
+(*   CapKinds                 the account's own cap of its two schedules      *)
+(*        (unlocked AND vested) is the minimum PER DENOMINATION of the two    *)
+(*        reads -- coin sets are only partially ordered, "the schedule that   *)
+(*        is behind" need not exist --, it splits the vested part exactly,    *)
+(*        and with nothing delegated the coins reported as not spendable      *)
+(*        cover everything that is unvested or still under lockup             *)
 (*   DisjunctKinds            merge = union of the release events            *)
 (*   ConjunctKinds            cap = pointwise minimum                        *)
 (*   AlignKinds               re-basing two schedules keeps their events     *)
@@ -156,6 +162,43 @@ GetterClass(D, a, g) ==
     ELSE IF ~CEq(g.unlocked[k], Read(D, LSched(a), g.ts[k])) /\ CEq(g.vested[k], Read(D, VSched(a), g.ts[k]))
          THEN ReadClass(LSched(a), a.end, g.ts[k])
          ELSE ReadClass(VSched(a), a.end, g.ts[k])
+
+\* The cap of the account's two schedules ("capping yields exactly their minimum"; "every vested
+\* coin (still subject to its lockup)").  Coins of several denominations are only PARTIALLY ordered:
+\* at an instant where one denomination is ahead in the lockup schedule and another one in the
+\* vesting schedule neither read dominates the other, and the minimum is neither of the two.
+\* The expected values are those of the denotation (Read), not of the other getters.
+CapMin(D, a, t)      == CMin(Read(D, LSched(a), t), Read(D, VSched(a), t))
+\* how the two reads compare at t (identifies a failing instant)
+CapOrder(D, a, t) ==
+    LET u == Read(D, LSched(a), t)
+        v == Read(D, VSched(a), t) IN
+    IF CEq(u, v) THEN "unlocked=vested"
+    ELSE IF CLE(u, v) THEN "unlocked<vested"
+    ELSE IF CLE(v, u) THEN "vested<unlocked"
+    ELSE "unlocked,vested incomparable"
+Incomparable(D, a, t) == CapOrder(D, a, t) = "unlocked,vested incomparable"
+HasCap(g) == {"unlockedvested", "lockedupvested", "lockedcoins", "delegated"} \subseteq DOMAIN g
+CapNotMin(D, a, g, k)   == ~CEq(g.unlockedvested[k], CapMin(D, a, g.ts[k]))
+CapNotSplit(D, a, g, k) == \/ ~CEq(CAdd(g.unlockedvested[k], g.lockedupvested[k]), Read(D, VSched(a), g.ts[k]))
+                           \/ ~CNonNeg(g.unlockedvested[k]) \/ ~CNonNeg(g.lockedupvested[k])
+\* nothing delegated: what is reported as not spendable covers every coin that is unvested or
+\* locked up (= original - cap); the statement does not bound it from above
+CapSpendable(D, a, g, k) == CIsZero(g.delegated) /\ ~CLE(CSub(a.orig, CapMin(D, a, g.ts[k])), g.lockedcoins[k])
+CapBad(D, a, g, k) == CapNotMin(D, a, g, k) \/ CapNotSplit(D, a, g, k) \/ CapSpendable(D, a, g, k)
+CapKinds(D, a, g) ==
+    IF ~HasCap(g) THEN {} ELSE
+    LET K == SeqIdx(g.ts) IN
+    (IF \E k \in K : CapNotMin(D, a, g, k) THEN {"unlocked-vested-not-min"} ELSE {})
+    \cup (IF \E k \in K : CapNotSplit(D, a, g, k) THEN {"lockedvested+unlockedvested#vested"} ELSE {})
+    \cup (IF \E k \in K : CapSpendable(D, a, g, k) THEN {"locked-up-or-unvested-coins-spendable"} ELSE {})
+CapClass(D, a, g) ==
+    LET k == FirstBad(g.ts, LAMBDA j : CapBad(D, a, g, j)) IN
+    IF k = 0 THEN "-" ELSE CapOrder(D, a, g.ts[k])
+CapKindNames == {"unlocked-vested-not-min", "lockedvested+unlockedvested#vested", "locked-up-or-unvested-coins-spendable"}
+\* all clauses about the getters, and the class of one broken clause
+AllGetterKinds(D, a, g) == GetterKinds(D, a, g) \cup CapKinds(D, a, g)
+GetterKindClass(k, D, a, g) == IF k \in CapKindNames THEN CapClass(D, a, g) ELSE GetterClass(D, a, g)
 
 \* clawback at time t took the sound account a to r and moved amt away
 ClawbackKinds(D, a, t, r, amt) ==
@@ -314,6 +357,14 @@ MAlign(a, b) ==
         pa == shift(a)
         pb == shift(b) IN
     [start |-> s0, end |-> IMax(s0 + TotalLength(pa), s0 + TotalLength(pb)), pa |-> pa, pb |-> pb]
+
+\* GetUnlockedVestedCoins = GetUnlockedCoins.Min(GetVestedCoins) (sdk.Coins.Min is per denomination),
+\* GetLockedUpVestedCoins = vested - that, LockedCoins without delegations = original - that
+MVested(D, a, t)         == MRead(D, a.start, a.end, a.vesting, a.orig, t)
+MUnlocked(D, a, t)       == MRead(D, a.start, a.end, a.lockup, a.orig, t)
+MUnlockedVested(D, a, t) == CMin(MUnlocked(D, a, t), MVested(D, a, t))
+MLockedUpVested(D, a, t) == CSub(MVested(D, a, t), MUnlockedVested(D, a, t))
+MLockedCoins(D, a, t)    == CSub(a.orig, MUnlockedVested(D, a, t))
 
 \* ClawbackVestingAccount.Validate (the BaseVestingAccount part always passes here)
 MValidate(D, a) ==
@@ -510,8 +561,12 @@ PairKinds(D, a, b, comp) ==
                         vested   |-> [k \in SeqIdx(ts) |-> MRead(D, acc.start, acc.end, acc.vesting, acc.orig, ts[k])],
                         unvested |-> [k \in SeqIdx(ts) |-> CSub(acc.orig, MRead(D, acc.start, acc.end, acc.vesting, acc.orig, ts[k]))],
                         unlocked |-> [k \in SeqIdx(ts) |-> MRead(D, acc.start, acc.end, acc.lockup, acc.orig, ts[k])],
-                        lockedup |-> [k \in SeqIdx(ts) |-> CSub(acc.orig, MRead(D, acc.start, acc.end, acc.lockup, acc.orig, ts[k]))]]
-            IN GetterKinds(D, acc, g)
+                        lockedup |-> [k \in SeqIdx(ts) |-> CSub(acc.orig, MRead(D, acc.start, acc.end, acc.lockup, acc.orig, ts[k]))],
+                        unlockedvested |-> [k \in SeqIdx(ts) |-> MUnlockedVested(D, acc, ts[k])],
+                        lockedupvested |-> [k \in SeqIdx(ts) |-> MLockedUpVested(D, acc, ts[k])],
+                        lockedcoins    |-> [k \in SeqIdx(ts) |-> MLockedCoins(D, acc, ts[k])],
+                        delegated      |-> CZero(D)]
+            IN AllGetterKinds(D, acc, g)
                \cup UNION { LET cl == MComputeClawback(D, acc, ts[k]) IN
                             ClawbackKinds(D, acc, ts[k], cl.acct, cl.amt) \ (IF comp THEN ClawbackKnown(cl.acct) ELSE {})
                             : k \in SeqIdx(ts) }
